@@ -383,3 +383,428 @@ Section Tree.
     - exfalso. destruct S as (m' & Hm & E). apply (Wf m'); [right; exact Hm|exact E].
   Qed.
 End Tree.
+
+(* ====================================================================== *)
+(* hex strings *)
+Lemma hex_digit_inj : forall a b, hex_digit a = hex_digit b -> a = b.
+Proof.
+  intros a b. unfold hex_digit.
+  destruct (a <? 10) eqn:Ea; destruct (b <? 10) eqn:Eb;
+    try apply N.ltb_lt in Ea; try apply N.ltb_lt in Eb;
+    try apply N.ltb_ge in Ea; try apply N.ltb_ge in Eb; lia.
+Qed.
+
+Lemma hex_encode_inj : forall a b, hex_encode a = hex_encode b -> a = b.
+Proof.
+  induction a as [|x a IH]; destruct b as [|y b]; cbn; intro E; try discriminate; try reflexivity.
+  inversion E as [[E1 E2 E3]]. apply hex_digit_inj in E1. apply hex_digit_inj in E2.
+  f_equal; [|apply IH; exact E3].
+  rewrite (N.div_mod x 16), (N.div_mod y 16) by lia. rewrite E1, E2. reflexivity.
+Qed.
+
+Lemma hex_val_digit : forall d, d < 16 -> hex_val (hex_digit d) = Some d.
+Proof.
+  intros d Hd.
+  assert (Hc : d = 0 \/ d = 1 \/ d = 2 \/ d = 3 \/ d = 4 \/ d = 5 \/ d = 6 \/ d = 7 \/ d = 8 \/ d = 9 \/
+               d = 10 \/ d = 11 \/ d = 12 \/ d = 13 \/ d = 14 \/ d = 15) by lia.
+  repeat (destruct Hc as [Hc|Hc]; [rewrite Hc; reflexivity|]). rewrite Hc. reflexivity.
+Qed.
+
+Lemma hex_decode_encode : forall bs, Forall (fun b => b < 256) bs -> hex_decode (hex_encode bs) = Some bs.
+Proof.
+  induction bs as [|x bs IH]; intro F; [reflexivity|].
+  pose proof (Forall_inv F) as Hx. cbn beta in Hx. apply Forall_inv_tail in F.
+  cbn [hex_encode hex_decode].
+  assert (Hq : x / 16 < 16) by (apply N.div_lt_upper_bound; lia).
+  assert (Hr : x mod 16 < 16) by (apply N.mod_lt; lia).
+  rewrite (hex_val_digit _ Hq), (hex_val_digit _ Hr), (IH F).
+  rewrite <- (N.div_mod x 16) by lia. reflexivity.
+Qed.
+
+Lemma hex_encode_length : forall b, length (hex_encode b) = (2 * length b)%nat.
+Proof. induction b as [|x b IH]; cbn [hex_encode length]; [reflexivity|]. rewrite IH. lia. Qed.
+
+(* well-formed proof element: decodes to exactly L bytes *)
+Definition hex_ok (L : nat) (s : str) : bool :=
+  match hex_decode s with Some b => Nat.eqb (length b) L | None => false end.
+
+Lemma valid_hash_string_ok : forall L s, valid_hash_string L s = Ok tt <-> hex_ok L s = true.
+Proof.
+  intros L s. unfold valid_hash_string, hex_ok. destruct (hex_decode s) as [b|]; [|split; discriminate].
+  destruct (Nat.eqb (length b) L); split; intro; try reflexivity; discriminate.
+Qed.
+Lemma valid_hash_string_err : forall L s, valid_hash_string L s = Err <-> hex_ok L s = false.
+Proof.
+  intros L s. unfold valid_hash_string, hex_ok. destruct (hex_decode s) as [b|]; [|split; reflexivity].
+  destruct (Nat.eqb (length b) L); split; intro; try reflexivity; discriminate.
+Qed.
+(* the two parsers of helpers/crypto.rs accept exactly the same strings *)
+Lemma string_to_byte_slice_same : forall L s,
+  is_ok (string_to_byte_slice L s) = is_ok (valid_hash_string L s).
+Proof.
+  intros L s. unfold string_to_byte_slice, valid_hash_string. destruct (hex_decode s); [|reflexivity].
+  destruct (Nat.eqb (length l) L); reflexivity.
+Qed.
+
+Section Strings.
+  Variable L : nat.
+  Variable H : bytes -> bytes.
+  Notation step := (Merkle.step H).
+
+  Definition decodes (p : list str) (bs : list bytes) : Prop :=
+    Forall2 (fun s b => hex_decode s = Some b /\ length b = L) p bs.
+
+  Lemma fold_proof_str_inv : forall p acc f, fold_proof_str L H acc p = Ok f ->
+    exists bs, decodes p bs /\ f = fold_left step bs acc.
+  Proof.
+    induction p as [|s p IH]; intros acc f E.
+    - cbn in E. inversion E. exists []. split; [constructor|reflexivity].
+    - cbn [fold_proof_str] in E. unfold valid_hash_string, string_to_byte_slice in E.
+      destruct (hex_decode s) as [b|] eqn:D; [|discriminate].
+      destruct (Nat.eqb (length b) L) eqn:Lb; [|discriminate]. cbn in E.
+      apply IH in E. destruct E as (bs & Hd & Ef). exists (b :: bs). split.
+      + constructor; [|exact Hd]. split; [exact D|]. apply Nat.eqb_eq. exact Lb.
+      + exact Ef.
+  Qed.
+
+  Lemma fold_proof_str_decoded : forall p bs acc, decodes p bs ->
+    fold_proof_str L H acc p = Ok (fold_left step bs acc).
+  Proof.
+    induction p as [|s p IH]; intros bs acc D; inversion D as [|? b ? bs' [D1 D2] D3]; [reflexivity|].
+    cbn [fold_proof_str fold_left]. unfold valid_hash_string, string_to_byte_slice.
+    rewrite D1. apply Nat.eqb_eq in D2. rewrite D2. cbn. apply IH. exact D3.
+  Qed.
+
+  Lemma fold_proof_str_malformed : forall p acc h, In h p -> hex_ok L h = false ->
+    fold_proof_str L H acc p = Err.
+  Proof.
+    induction p as [|s p IH]; intros acc h Hin Hbad; [contradiction|].
+    cbn [fold_proof_str]. destruct Hin as [Hin|Hin].
+    - rewrite Hin. apply valid_hash_string_err in Hbad. rewrite Hbad. reflexivity.
+    - destruct (valid_hash_string L s) as [[]|]; [|reflexivity]. cbn.
+      destruct (string_to_byte_slice L s); [|reflexivity]. cbn. apply IH with h; assumption.
+  Qed.
+
+  (* a malformed element anywhere in the proof: Err, whatever the rest, the member and the root *)
+  Theorem malformed_is_error : forall root m p h, In h p -> hex_ok L h = false ->
+    has_member L H root m p = Err.
+  Proof.
+    intros root m p h Hin Hbad. unfold has_member.
+    rewrite (fold_proof_str_malformed p (H m) h Hin Hbad). reflexivity.
+  Qed.
+
+  (* conversely: all elements well formed => a definite answer *)
+  Lemma decodes_of_ok : forall p, forallb (hex_ok L) p = true -> exists bs, decodes p bs.
+  Proof.
+    induction p as [|s p IH]; intro F; [exists []; constructor|].
+    cbn in F. apply andb_true_iff in F. destruct F as [F1 F2]. destruct (IH F2) as [bs D].
+    unfold hex_ok in F1. destruct (hex_decode s) as [b|] eqn:E; [|discriminate].
+    exists (b :: bs). constructor; [|exact D]. split; [exact E|]. apply Nat.eqb_eq. exact F1.
+  Qed.
+
+  Theorem has_member_answer : forall root m p,
+    has_member L H root m p = Err <-> forallb (hex_ok L) p = false.
+  Proof.
+    intros root m p. split.
+    - intro E. destruct (forallb (hex_ok L) p) eqn:F; [|reflexivity].
+      destruct (decodes_of_ok p F) as [bs D]. unfold has_member in E.
+      rewrite (fold_proof_str_decoded p bs (H m) D) in E. discriminate.
+    - intro F. assert (Hex : exists h, In h p /\ hex_ok L h = false).
+      { clear root m. induction p as [|s p IH]; [discriminate|]. cbn in F.
+        destruct (hex_ok L s) eqn:E.
+        - cbn in F. destruct (IH F) as (h & Hh & Hb). exists h. split; [right; exact Hh|exact Hb].
+        - exists s. split; [left; reflexivity|exact E]. }
+      destruct Hex as (h & Hh & Hb). apply malformed_is_error with h; assumption.
+  Qed.
+
+  (* Ok b: the proof decodes, and b compares the stored root string with the hex of the fold *)
+  Theorem has_member_inv : forall root m p b, has_member L H root m p = Ok b ->
+    exists bs, decodes p bs /\ b = str_eqb root (hex_encode (fold_proof H m bs)).
+  Proof.
+    intros root m p b E. unfold has_member in E.
+    destruct (fold_proof_str L H (H m) p) as [f|] eqn:F; [|discriminate].
+    cbn in E. inversion E. apply fold_proof_str_inv in F. destruct F as (bs & D & Ef).
+    exists bs. split; [exact D|]. unfold fold_proof. rewrite Ef. reflexivity.
+  Qed.
+
+  Lemma decodes_len : forall p bs, decodes p bs -> Forall (fun s => length s = L) bs.
+  Proof. induction 1 as [|s b p bs [_ Hl] _ IH]; constructor; assumption. Qed.
+
+  Hypothesis H_len : forall x, length (H x) = L.
+
+  (* string-level soundness: the contract said Ok true against the hex of a tree root *)
+  Theorem has_member_sound : forall ms m p, ms <> [] ->
+    has_member L H (hex_encode (root H ms)) m p = Ok true ->
+    exists bs, decodes p bs /\
+     (In m ms \/
+      (exists x y, find_collision H (calls H ms m bs) = Some (x, y) /\ x <> y /\ H x = H y) \/
+      length m = (2 * L)%nat \/
+      (exists m', In m' ms /\ length m' = (2 * L)%nat)).
+  Proof.
+    intros ms m p Hne E. apply has_member_inv in E. destruct E as (bs & D & Eb).
+    exists bs. split; [exact D|]. symmetry in Eb. apply str_eqb_eq in Eb. apply hex_encode_inj in Eb.
+    apply (sound L H H_len ms m bs Hne (decodes_len p bs D)).
+    unfold verify. apply bytes_eqb_eq. symmetry. exact Eb.
+  Qed.
+
+  Hypothesis H_byte : forall x, Forall (fun b => b < 256) (H x).
+
+  Lemma layer_up_all (P : bytes -> Prop) : (forall x, P (H x)) ->
+    forall l, Forall P l -> Forall P (layer_up H l).
+  Proof.
+    intros HP. induction l as [| a | a b r IH] using list_pair_ind; intro F; try exact F.
+    cbn [layer_up]. constructor; [apply HP|]. apply IH.
+    apply Forall_inv_tail in F. apply Forall_inv_tail in F. exact F.
+  Qed.
+  Lemma proof_layers_all (P : bytes -> Prop) : (forall x, P (H x)) ->
+    forall fuel l i, Forall P l -> Forall P (proof_layers H fuel l i).
+  Proof.
+    intros HP. induction fuel as [|f IH]; intros l i F; [constructor|].
+    cbn [proof_layers]. destruct (nth_error l (sibling i)) as [s|] eqn:E.
+    - constructor.
+      + rewrite Forall_forall in F. apply F. apply nth_error_In with (sibling i). exact E.
+      + apply IH. apply layer_up_all; assumption.
+    - apply IH. apply layer_up_all; assumption.
+  Qed.
+  Lemma leaves_all (P : bytes -> Prop) : (forall x, P (H x)) -> forall ms, Forall P (leaves H ms).
+  Proof.
+    intros HP ms. unfold leaves. apply Forall_forall. intros x Hx. apply in_map_iff in Hx.
+    destruct Hx as (m & E & _). rewrite <- E. apply HP.
+  Qed.
+
+  (* string-level completeness: the hex of every member's rs_merkle proof is accepted *)
+  Theorem has_member_complete : forall (ms : list str) i (m : str), nth_error ms i = Some m ->
+    has_member L H (hex_encode (root H ms)) m (map hex_encode (proof_at H ms i)) = Ok true.
+  Proof.
+    intros ms i m Hi. unfold has_member.
+    assert (D : decodes (map hex_encode (proof_at H ms i)) (proof_at H ms i)).
+    { unfold proof_at.
+      pose proof (proof_layers_all (fun x => length x = L) H_len (length ms) _ i (leaves_all _ H_len ms)) as F1.
+      pose proof (proof_layers_all _ H_byte (length ms) _ i (leaves_all _ H_byte ms)) as F2.
+      induction (proof_layers H (length ms) (leaves H ms) i) as [|b bs IH]; [constructor|].
+      cbn [map]. constructor.
+      - split; [apply hex_decode_encode; exact (Forall_inv F2)|exact (Forall_inv F1)].
+      - apply IH; [exact (Forall_inv_tail F1)|exact (Forall_inv_tail F2)]. }
+    rewrite (fold_proof_str_decoded _ _ (H m) D). cbn.
+    pose proof (complete_at H ms i m Hi) as C. unfold fold_proof in C. rewrite C.
+    f_equal. apply str_eqb_eq. reflexivity.
+  Qed.
+End Strings.
+
+(* ====================================================================== *)
+(* the stored root(s) under Execute *)
+Ltac guards :=
+  repeat match goal with
+         | H : context [guard ?b] |- _ => destruct b; cbn in H; try discriminate
+         end.
+
+Theorem wl_root_immutable : forall now sender msg s s',
+  wl_execute now sender msg s = Ok s' -> wl_root s' = wl_root s.
+Proof.
+  intros now sender [t|t|a ok|] s s' E; cbn in E;
+    unfold wl_update_start_time, wl_update_end_time, wl_update_admins, wl_freeze in E;
+    guards; inversion E; reflexivity.
+Qed.
+
+(* a history of calls; a rejected call changes nothing *)
+Fixpoint wl_run (h : list (N * addr * wl_msg)) (s : wl_state) : wl_state :=
+  match h with
+  | [] => s
+  | (now, sender, m) :: r =>
+      match wl_execute now sender m s with Ok s' => wl_run r s' | Err => wl_run r s end
+  end.
+Theorem wl_root_immutable_history : forall h s, wl_root (wl_run h s) = wl_root s.
+Proof.
+  induction h as [|[[now sender] m] r IH]; intro s; [reflexivity|].
+  cbn [wl_run]. destruct (wl_execute now sender m s) as [s'|] eqn:E; [|apply IH].
+  rewrite IH. apply wl_root_immutable with now sender m. exact E.
+Qed.
+
+Theorem tw_roots_immutable : forall now sender msg s s',
+  tw_execute now sender msg s = Ok s' -> tw_roots s' = tw_roots s.
+Proof.
+  intros now sender [id st en dn lm|a ok|] s s' E; cbn in E;
+    unfold tw_update_stage_config, tw_update_admins, tw_freeze in E.
+  - guards. destruct (nth_error (tw_stages s) (N.to_nat id)); [|discriminate].
+    destruct (validate_update _); [|discriminate]. cbn in E. inversion E. reflexivity.
+  - guards. inversion E. reflexivity.
+  - guards. inversion E. reflexivity.
+Qed.
+Fixpoint tw_run (h : list (N * addr * tw_msg)) (s : tw_state) : tw_state :=
+  match h with
+  | [] => s
+  | (now, sender, m) :: r =>
+      match tw_execute now sender m s with Ok s' => tw_run r s' | Err => tw_run r s end
+  end.
+Theorem tw_roots_immutable_history : forall h s, tw_roots (tw_run h s) = tw_roots s.
+Proof.
+  induction h as [|[[now sender] m] r IH]; intro s; [reflexivity|].
+  cbn [tw_run]. destruct (tw_execute now sender m s) as [s'|] eqn:E; [|apply IH].
+  rewrite IH. apply tw_roots_immutable with now sender m. exact E.
+Qed.
+
+(* ---------- tiered: which root is consulted ---------- *)
+Definition stage_active (now : N) (s : stage) : bool := (st_start s <=? now) && (now <=? st_end s).
+
+Lemma active_index_spec : forall now l i, active_index now l = Some i ->
+  (exists s, nth_error l i = Some s /\ stage_active now s = true) /\
+  (forall j s, (j < i)%nat -> nth_error l j = Some s -> stage_active now s = false).
+Proof.
+  induction l as [|s0 l IH]; intros i E; [discriminate|].
+  cbn [active_index] in E. fold (stage_active now s0) in E.
+  destruct (stage_active now s0) eqn:A.
+  - inversion E; subst i. split; [exists s0; auto|]. intros j s Hj. lia.
+  - destruct (active_index now l) as [k|] eqn:K; [|discriminate]. inversion E; subst i.
+    destruct (IH k eq_refl) as [I1 I2]. split; [exact I1|].
+    intros [|j] s Hj Hn; [cbn in Hn; inversion Hn; subst; exact A|].
+    apply (I2 j); [lia|exact Hn].
+Qed.
+Lemma active_index_none : forall now l, active_index now l = None ->
+  forall s, In s l -> stage_active now s = false.
+Proof.
+  induction l as [|s0 l IH]; intros E s Hs; [contradiction|].
+  cbn [active_index] in E. fold (stage_active now s0) in E.
+  destruct (stage_active now s0) eqn:A; [discriminate|].
+  destruct (active_index now l) eqn:K; [discriminate|].
+  destruct Hs as [Hs|Hs]; [subst; exact A|apply IH; auto].
+Qed.
+
+Theorem tiered_uses_active_root : forall H now s m p,
+  match active_index now (tw_stages s) with
+  | None => tw_has_member H now s m p = Err
+  | Some i =>
+      match nth_error (tw_roots s) i with
+      | Some r => tw_has_member H now s m p = has_member 16 H r m p
+      | None => tw_has_member H now s m p = Err
+      end
+  end.
+Proof.
+  intros H now s m p. unfold tw_has_member.
+  destruct (active_index now (tw_stages s)) as [i|]; [|reflexivity].
+  destruct (nth_error (tw_roots s) i); reflexivity.
+Qed.
+
+(* ---------- decimal rendering and the leaf ---------- *)
+Definition val_le (l : list N) : N := fold_right (fun c v => (c - 48) + 10 * v) 0 l.
+
+Lemma dec_le_val : forall f n, n < 2 ^ N.of_nat f -> val_le (dec_le (S f) n) = n.
+Proof.
+  induction f as [|f IH]; intros n Hn.
+  - cbn in Hn. assert (n = 0) by lia. subst n. reflexivity.
+  - rewrite Nat2N.inj_succ, N.pow_succ_r' in Hn.
+    change (dec_le (S (S f)) n) with ((48 + n mod 10) :: (if n / 10 =? 0 then [] else dec_le (S f) (n / 10))).
+    cbn [val_le fold_right]. fold (val_le (if n / 10 =? 0 then [] else dec_le (S f) (n / 10))).
+    pose proof (N.div_mod n 10 ltac:(lia)) as Edm.
+    pose proof (N.mod_lt n 10 ltac:(lia)) as Hm.
+    destruct (n / 10 =? 0) eqn:Z.
+    + apply N.eqb_eq in Z. cbn [val_le fold_right]. clear - Edm Hm Z. remember (n / 10) as q; remember (n mod 10) as r; lia.
+    + apply N.eqb_neq in Z. rewrite IH; [clear - Edm Hm; remember (n / 10) as q; remember (n mod 10) as r; lia|].
+      clear - Edm Hm Hn. remember (n / 10) as q. remember (n mod 10) as r.
+      remember (2 ^ N.of_nat f) as X. lia.
+Qed.
+
+Lemma dec_inj : forall n m, dec n = dec m -> n = m.
+Proof.
+  intros n m E. unfold dec in E.
+  assert (E' : dec_le (S (N.to_nat (N.size n))) n = dec_le (S (N.to_nat (N.size m))) m).
+  { rewrite <- (rev_involutive (dec_le _ n)), E, rev_involutive. reflexivity. }
+  apply (f_equal val_le) in E'.
+  rewrite !dec_le_val in E' by (rewrite N2Nat.id; apply N.size_gt). exact E'.
+Qed.
+
+Lemma dec_le_digits : forall f n, Forall (fun c => is_digit c = true) (dec_le f n).
+Proof.
+  induction f as [|f IH]; intro n; [constructor|].
+  cbn [dec_le]. constructor.
+  - pose proof (N.mod_lt n 10 ltac:(lia)) as Hm. remember (n mod 10) as r. unfold is_digit.
+    apply andb_true_iff. split; apply N.leb_le; lia.
+  - destruct (n / 10 =? 0); [constructor|apply IH].
+Qed.
+Lemma dec_digits : forall n, Forall (fun c => is_digit c = true) (dec n).
+Proof. intro n. unfold dec. apply Forall_rev. apply dec_le_digits. Qed.
+Lemma dec_nonempty : forall n, dec n <> [].
+Proof.
+  intros n E. unfold dec in E. apply (f_equal (@length N)) in E. rewrite rev_length in E.
+  cbn in E. discriminate.
+Qed.
+
+Definition head_nondigit (s : str) : Prop :=
+  match s with c :: _ => is_digit c = false | [] => False end.
+
+Lemma digit_prefix_split : forall d d' s s',
+  Forall (fun c => is_digit c = true) d -> Forall (fun c => is_digit c = true) d' ->
+  head_nondigit s -> head_nondigit s' -> d ++ s = d' ++ s' -> d = d' /\ s = s'.
+Proof.
+  induction d as [|c d IH]; intros d' s s' Fd Fd' Hs Hs' E.
+  - destruct d' as [|c' d']; [auto|]. exfalso. cbn in E. rewrite E in Hs. cbn in Hs.
+    pose proof (Forall_inv Fd'). cbn in *. congruence.
+  - destruct d' as [|c' d'].
+    + exfalso. cbn in E. rewrite <- E in Hs'. cbn in Hs'. pose proof (Forall_inv Fd). cbn in *. congruence.
+    + cbn in E. inversion E as [[Ec Er]].
+      destruct (IH d' s s' (Forall_inv_tail Fd) (Forall_inv_tail Fd') Hs Hs' Er) as [E1 E2].
+      split; congruence.
+Qed.
+
+Lemma opt_dec_digits : forall o, Forall (fun c => is_digit c = true) (opt_dec o).
+Proof. intros [n|]; [apply dec_digits|constructor]. Qed.
+Lemma opt_dec_inj : forall o o', opt_dec o = opt_dec o' -> o = o'.
+Proof.
+  intros [n|] [m|] E; cbn in E.
+  - f_equal. apply dec_inj. exact E.
+  - exfalso. apply (dec_nonempty n). exact E.
+  - exfalso. apply (dec_nonempty m). symmetry. exact E.
+  - reflexivity.
+Qed.
+
+(* the leaf determines stage, sender and allocation, for senders that start with a
+   non-digit character and have the same length *)
+Theorem leaf_inj : forall st a al st' a' al',
+  head_nondigit a -> head_nondigit a' -> length a = length a' ->
+  leaf st a al = leaf st' a' al' -> st = st' /\ a = a' /\ al = al'.
+Proof.
+  intros st a al st' a' al' Ha Ha' Hl E. unfold leaf in E.
+  assert (Hh : forall (x : str) t, head_nondigit x -> head_nondigit (x ++ t)).
+  { intros [|c x] t Hx; [contradiction|exact Hx]. }
+  apply digit_prefix_split in E; auto using opt_dec_digits.
+  destruct E as [E1 E2]. apply app_inv_len in E2; [|exact Hl]. destruct E2 as [E2 E3].
+  apply opt_dec_inj in E1. apply opt_dec_inj in E3. auto.
+Qed.
+
+Corollary leaf_binds_sender : forall st a al st' a' al',
+  head_nondigit a -> head_nondigit a' -> length a = length a' ->
+  a <> a' -> leaf st a al <> leaf st' a' al'.
+Proof. intros st a al st' a' al' Ha Ha' Hl Hn E. apply leaf_inj in E; tauto. Qed.
+
+(* end to end: against a tree built from entries (stage, address, allocation), a sender
+   whose own (stage, sender, allocation) is not an entry is only accepted through a
+   collision or one of the 2L-byte caveats *)
+Section Useless.
+  Variable L : nat.
+  Variable H : bytes -> bytes.
+  Hypothesis H_len : forall x, length (H x) = L.
+
+  Definition entry_leaf (e : option N * str * option N) : str :=
+    match e with (st, a, al) => leaf st a al end.
+
+  Theorem proof_useless_to_other : forall (entries : list (option N * str * option N)) K st b al p,
+    entries <> [] ->
+    (forall st' a' al', In (st', a', al') entries -> head_nondigit a' /\ length a' = K) ->
+    head_nondigit b -> length b = K ->
+    Forall (fun s => length s = L) p ->
+    verify H (root H (map entry_leaf entries)) (leaf st b al) p = true ->
+    In (st, b, al) entries \/
+    (exists x y, find_collision H (calls H (map entry_leaf entries) (leaf st b al) p) = Some (x, y)
+                 /\ x <> y /\ H x = H y) \/
+    length (leaf st b al) = (2 * L)%nat \/
+    (exists e, In e entries /\ length (entry_leaf e) = (2 * L)%nat).
+  Proof.
+    intros entries K st b al p Hne Hwf Hb Hk Fp V.
+    assert (Hne' : map entry_leaf entries <> []) by (destruct entries; [congruence|discriminate]).
+    destruct (sound L H H_len _ _ _ Hne' Fp V) as [S|[S|[S|S]]]; auto.
+    - left. apply in_map_iff in S. destruct S as ([[st' a'] al'] & E & Hin).
+      destruct (Hwf _ _ _ Hin) as [W1 W2]. cbn [entry_leaf] in E.
+      apply leaf_inj in E; auto; [|congruence]. destruct E as (E1 & E2 & E3). congruence.
+    - right. right. right. destruct S as (m' & Hin & El). apply in_map_iff in Hin.
+      destruct Hin as (e & Ee & Hin). exists e. split; [exact Hin|congruence].
+  Qed.
+End Useless.
